@@ -1,8 +1,10 @@
 """C04 — see DESIGN.md §4."""
 from ..spec import run_specs
+from ..guards import run_D4
 
 EXPLANATION = 'Per line-number instruction: LineRow::execute stores exactly the registers the reviewed (standard) table names and reaches the checked address arithmetic; every store to LineRow.address is one of three monotone shapes (checked add_sized, guarded SetAddress, reset via LineRow::new); the opcode decoder consumes the standard operand kinds; header validation of zero parameters precedes their use. Row equality with the state machine over all programs is NOT decided.'
 
 
 def run(rep, ctx):
     run_specs(rep, ctx, 'C04')
+    run_D4(rep, ctx.g)
